@@ -44,10 +44,11 @@ def run(ctx):
         PC.corr_package(ctx, d2, b2.getvalue(), 'reloaded')
         PC.judge_package(ctx, b2.getvalue(), dict(case, generation=2), h.root.mimetype, objs, pics, what='re-saved package')
     # packages from other producers
+    nsyn = [0]
     for ex in sorted(glob.glob(os.path.join(vlib.REPO, 'tests', 'examples', '*.od?'))) + ['synthetic'] * (6 if ctx.quick else 60):
         try:
             if ex == 'synthetic':
-                src = synthetic(ctx.rng)
+                src = synthetic(ctx.rng, nsyn[0]); nsyn[0] += 1
             else:
                 src = open(ex, 'rb').read()
             d = load(io.BytesIO(src))
@@ -70,7 +71,7 @@ def run(ctx):
             warnings.simplefilter('ignore'); d.write(b)
         PC.judge_package(ctx, b.getvalue(), {'explicit picture name': bad}, d.mimetype, cause='explicit-picture-name-is-a-reserved-member-name')
 
-def synthetic(rng):
+def synthetic(rng, i=None):
     c = P.content_xml('<text:p>obj</text:p>'); s = P.styles_xml()
     nums = rng.sample([1, 2, 3, 7, 10, 12, 100, 2024], rng.randint(0, 3))
     members = [('content.xml', P.content_xml('<text:p>main</text:p>'), 'text/xml'), ('styles.xml', s, 'text/xml'), ('meta.xml', P.meta_xml(), 'text/xml')]
@@ -81,7 +82,7 @@ def synthetic(rng):
         members.append(('ObjectReplacements/Object %d' % n, b'wmf%d' % n, 'application/x-openoffice-gdimetafile'))
     if rng.random() < 0.5: members += [('Pictures/a b.png', b'\x89PNG', 'image/png')]
     if rng.random() < 0.5: members += [('Thumbnails/thumbnail.png', b'thumb', 'image/png')]
-    if rng.random() < 0.5: members += [('META-INF/documentsignatures.xml', '<x/>', 'text/xml')]
+    if (rng.random() < 0.5) if i is None else (i % 2 == 0): members += [('META-INF/documentsignatures.xml', '<x/>', 'text/xml')]      # every other package is signed
     if rng.random() < 0.5: members += [('Configurations2/', '', 'application/vnd.sun.xml.ui.configuration'), ('extra/blob.bin', b'\x00\xff', 'application/octet-stream')]
     # some producers list the manifest itself and the mimetype file in the manifest
     man = [('/', P.MT_TEXT)] + [(p_, mt_ if mt_ is not None else 'text/xml') for p_, d_, mt_ in members]
